@@ -15,6 +15,8 @@ import (
 	"path/filepath"
 	"strings"
 
+	"golang.org/x/text/unicode/norm"
+
 	"github.com/LiskHQ/lisk-engine/pkg/blockchain"
 	"github.com/LiskHQ/lisk-engine/pkg/codec"
 	_ "github.com/LiskHQ/lisk-engine/pkg/consensus"
@@ -294,6 +296,29 @@ func (prop) Generate(rng *rand.Rand, tier string) []corr.Case {
 		}
 		cases = append(cases, corr.Case{Ops: ops, Tag: "lisk32"})
 	}
+	// strings beyond ASCII: NFC is a parameter of the model; the verdict of x/text (an oracle that is
+	// independent of pkg/codec) is passed to the model with the op
+	tricky := []string{"q\u0301", "\u1161", "n\u0302\u0327", "e\u0301", "A\u030a", "\u00e9", "\u212b", "\uac00", "\u1100\u1161", "a\u0323\u0307", "a\u0307\u0323", "\u0958", "z\u0335", "\U0001F600", "\u00df"}
+	{
+		ops := []string{"reset"}
+		for i := 0; i < 4*len(tricky); i++ {
+			str := tricky[i%len(tricky)]
+			if i >= len(tricky) {
+				str = tricky[rng.Intn(len(tricky))] + string(rune('a'+rng.Intn(26))) + tricky[rng.Intn(len(tricky))]
+			}
+			var b []byte
+			b = append(b, 0x0a)
+			b = append(b, uvarint(uint64(len(str)))...)
+			b = append(b, str...)
+			b = append(b, 0x12, 0x01, 'c', 0x18, 0x01, 0x20, 0x02, 0x2a, 0x00, 0x32, 0x00)
+			bit := 0
+			if norm.NFC.IsNormalString(str) {
+				bit = 1
+			}
+			ops = append(ops, fmt.Sprintf("nfcdec blockchain.Transaction %s %d", corr.Hex(b), bit))
+		}
+		cases = append(cases, corr.Case{Ops: ops, Tag: "nfc"})
+	}
 	for _, s := range Schemas {
 		ops := []string{"reset"}
 		for i := 0; i < perSchema; i++ {
@@ -417,6 +442,17 @@ func (prop) RunImpl(c corr.Case) ([]string, []corr.Fail) {
 			}
 		case "validate":
 			out = append(out, fmt.Sprint(codec.ValidateLisk32(string(corr.UnHex(w[1]))) == nil))
+		case "nfcdec":
+			b := corr.UnHex(w[2])
+			r := Decode1(w[1], b, false)
+			rs := Decode1(w[1], b, true)
+			if w[3] == "1" && (!strings.HasPrefix(r, "ok ") || !strings.HasPrefix(rs, "ok ")) {
+				fails = append(fails, corr.Fail{Sig: "nfc-normal-string-rejected", Detail: fmt.Sprintf("%s: lenient %s strict %s", op, r, rs), Op: i})
+			}
+			if w[3] == "0" && (strings.HasPrefix(r, "ok ") || strings.HasPrefix(rs, "ok ")) {
+				fails = append(fails, corr.Fail{Sig: "non-nfc-string-accepted", Detail: fmt.Sprintf("%s: lenient %s strict %s", op, r, rs), Op: i})
+			}
+			out = append(out, r+" "+rs)
 		case "rt":
 			// a fully populated canonical encoding must decode and re-encode to exactly itself (both decoders)
 			b := corr.UnHex(w[2])
@@ -455,6 +491,25 @@ func (prop) RunImpl(c corr.Case) ([]string, []corr.Fail) {
 				// oracle 3: strict decoding of a transaction accepts only the canonical bytes
 				if w[0] == "decs" && (w[1] == "blockchain.Transaction" || w[1] == "blockchain.SigningTransaction") && !bytes.Equal(re, b) {
 					fails = append(fails, corr.Fail{Sig: "strict-accepts-non-canonical-transaction", Detail: fmt.Sprintf("%s re-encodes to %x", op, re), Op: i})
+				}
+				// oracle 5: block header IDs are unchanged by re-encoding (the ID is the hash of the canonical
+				// encoding, whatever accepted bytes the header arrived as)
+				if w[0] == "dec" && w[1] == "blockchain.BlockHeader" {
+					if h1, err := blockchain.NewBlockHeader(b); err == nil {
+						h2, err2 := blockchain.NewBlockHeader(h1.Encode())
+						cp := *h1
+						cp.Init()
+						if err2 != nil || !bytes.Equal(h1.ID, h2.ID) || !bytes.Equal(h1.ID, cp.ID) {
+							fails = append(fails, corr.Fail{Sig: "block-id-unstable-under-reencoding", Detail: op, Op: i})
+						}
+					}
+					raw := &blockchain.RawBlock{Header: b}
+					if blk, err := blockchain.NewBlock(raw.Encode()); err == nil {
+						blk2, err2 := blockchain.NewBlock(blk.Encode())
+						if err2 != nil || !bytes.Equal(blk.Header.ID, blk2.Header.ID) {
+							fails = append(fails, corr.Fail{Sig: "block-id-unstable-under-reencoding", Detail: op + " (via NewBlock)", Op: i})
+						}
+					}
 				}
 				// oracle 4: the transaction ID is the hash of exactly the accepted bytes and stable under re-encoding
 				if w[0] == "decs" && w[1] == "blockchain.Transaction" {
